@@ -52,6 +52,8 @@ func propC05(r *kernel.Run) {
 	loader := tp.Draw(4) != 0
 	backend := Pick2(tp, "inmem", "storeonce", "file")
 	w := NewWorld(r, "server", backend, tp.Draw(2) == 1, loader)
+	// the store-once back end has a node-ID lookup of its own: use it in half of its runs
+	w.St.NativeLookup = loader && backend == "storeonce" && tp.Draw(2) == 0
 	w.St.EmptyOnMiss = loader && tp.Draw(2) == 0 // a NodeIdLoader may answer an unknown node ID with an empty set instead of ErrNotFound
 	if _, err := rotation.RotateRootCertificates(w.Ctx, w.Storage, w.Opts()...); err != nil {
 		r.HarnessErr("bootstrap roots: %v", err)
@@ -74,7 +76,7 @@ func propC05(r *kernel.Run) {
 	}
 	for i := 0; i < tp.Draw(3); i++ {
 		id := NewIdent(fmt.Sprintf("M%d", i))
-		registerNode(r, w, id, "node-M")
+		registerNode(r, w, id, "node-N2")
 		underM = append(underM, id)
 	}
 	if tp.Draw(2) == 0 {
@@ -115,7 +117,7 @@ func propC05(r *kernel.Run) {
 				}
 				for _, x := range underM {
 					if x == v {
-						nid = "node-M"
+						nid = "node-N2"
 					}
 				}
 				registerNode(r, w, v, nid)
@@ -143,7 +145,7 @@ func propC05(r *kernel.Run) {
 		if tp.Draw(3) == 0 {
 			stateSigner = nonceSigner
 		}
-		nodeIDHint := Pick2(tp, "", "node-N", "node-M", "node-unknown")
+		nodeIDHint := Pick2(tp, "", "node-N", "node-N2", "node-unknown", "node") // "node-N" is a prefix of "node-N2", "node" of both: a node ID is a whole name
 		withState := tp.Draw(2) == 0
 		local := tp.Draw(10) == 0 // the local caller marks the request as a credential fetch
 
@@ -185,7 +187,7 @@ func propC05(r *kernel.Run) {
 			switch nodeIDHint {
 			case "node-N":
 				scope = inStorage(underN)
-			case "node-M":
+			case "node-N2":
 				scope = inStorage(underM)
 			}
 		} else if id := byKeyID[claim.KeyId]; id != nil && !removed[id.KeyId] {
